@@ -399,6 +399,47 @@ class LongWords(Texts):
             C15.TEXTS.pop()
 
 
+class LabelsLikeKeys(object):
+    name = 'labels-spelled-like-document-keys'
+    describe = ('enumeration labels and BITS names spelled like the keys of the intermediate document (description, reference, units, '
+                'oid, value, format, type, class, default, enumeration, bits, range ... 33 words), in an object\'s in-line syntax, in '
+                'a type assignment and in a TEXTUAL-CONVENTION, alone and next to an ordinary label, with and without a DEFVAL '
+                'naming the label: compiles with both back ends, valid Python, loads, agrees with the JSON document')
+
+    WORDS = ['description', 'reference', 'units', 'organization', 'contactinfo', 'displayhint', 'productrelease', 'lastupdated',
+             'oid', 'value', 'format', 'type', 'class', 'name', 'status', 'default', 'enumeration', 'bits', 'constraints', 'range',
+             'size', 'min', 'max', 'module', 'object', 'implied', 'syntax', 'maxaccess', 'nodetype', 'revisions', 'revision',
+             'objects', 'indices']
+
+    def blocks(self, tier):
+        return [{'w': w} for w in self.WORDS]
+
+    def cases(self, block, tier):
+        for carrier in ('ot', 'type', 'tc'):
+            for base in ('enum', 'bits'):
+                for alone in (0, 1):
+                    for dv in ((0, 1) if carrier == 'ot' and base == 'enum' else (0,)):
+                        yield {'w': block['w'], 'carrier': carrier, 'base': base, 'alone': alone, 'dv': dv}
+
+    def run_case(self, case):
+        w = case['w']
+        members = [(w, 1)] if case['alone'] else [('first', 0), (w, 1), ('last', 2)]
+        syn = ('simple', 'INTEGER', ('enum', members)) if case['base'] == 'enum' else ('bits', members)
+        decls = C03.context()
+        if case['carrier'] == 'ot':
+            d = C03ot('subject', syn, ['ctxRoot', 40])
+            if case['dv']:
+                d['defval'] = ('id', w)
+            decls.append(d)
+        elif case['carrier'] == 'type':
+            decls += [{'k': 'type', 'name': 'Subject', 'syntax': syn}, C03ot('user', ('ref', 'Subject'), ['ctxRoot', 41])]
+        else:
+            decls += [{'k': 'tc', 'name': 'Subject', 'display': None, 'status': 'current', 'descr': 'd', 'syntax': syn},
+                      C03ot('user', ('ref', 'Subject'), ['ctxRoot', 41])]
+        mod = refir.finish_module({'name': 'TEST-MIB', 'decls': decls})
+        return check_set([mod], ['TEST-MIB'], 'C04|label-like-a-key|%s|%s|%s' % (w, case['carrier'], case['base']))
+
+
 class AccessWords(object):
     name = 'access-words'
     describe = ('a scalar and a table column declared with every access word of SMIv1 and SMIv2 (read-only, read-write, write-only, '
@@ -600,4 +641,4 @@ def _option_histories():
     return OptionHistories()
 
 
-FAMILIES = [Sequences(), CrossModule(), Identifiers(), TypeChains(), Texts(), LongWords(), AccessWords(), NoImportsClause(), EnumLengths(), SingleValueConstraints(), LoadTogether(), _option_histories()]
+FAMILIES = [Sequences(), CrossModule(), Identifiers(), TypeChains(), Texts(), LongWords(), LabelsLikeKeys(), AccessWords(), NoImportsClause(), EnumLengths(), SingleValueConstraints(), LoadTogether(), _option_histories()]
